@@ -87,6 +87,8 @@ class Builder:
         self.import_path = import_path
 
         self.gate_memo = GateMemoizer()
+        # Which macros contain a subcircuit block, by macro object
+        self.subcircuit_memo = {}
 
     def build(self, expression, context=None, gate_context=None):
         """Build the appropriate thing based on the expression."""
@@ -140,6 +142,8 @@ class Builder:
                 self.add_to_context(context, obj.name, obj)
             elif isinstance(obj, Macro):
                 obj = rebuild_macro_in_context(obj, context, gate_context)
+                # Known before any later macro or statement calls this one
+                contains_subcircuit(obj, self.subcircuit_memo)
                 macros[obj.name] = obj
                 self.add_to_context(gate_context, obj.name, obj)
             elif (
@@ -289,7 +293,7 @@ class Builder:
             self.gate_memo.set(memo_key, gate)
         if self.is_in_block_context(
             context, ["subcircuit", "parallel"]
-        ) and contains_subcircuit(gate):
+        ) and contains_subcircuit(gate, self.subcircuit_memo):
             # The call stands for the macro's body
             raise JaqalError("Nesting subcircuit in subcircuit or parallel block")
         return gate
@@ -409,19 +413,30 @@ class Builder:
         return UsePulsesStatement(name, all, import_path=self.import_path)
 
 
-def contains_subcircuit(obj):
+def contains_subcircuit(obj, memo=None):
     """Return whether a statement is or contains a subcircuit block,
-    looking into the macros it calls."""
+    looking into the macros it calls. The answer for each macro is kept
+    in memo, so that a macro is looked into once however often it is
+    called."""
+    if memo is None:
+        memo = {}
     if isinstance(obj, GateStatement):
         return isinstance(obj.gate_def, Macro) and contains_subcircuit(
-            obj.gate_def.body
+            obj.gate_def, memo
         )
+    if isinstance(obj, Macro):
+        # (the memo keeps the macro alive, so its id stays its own)
+        if id(obj) not in memo:
+            memo[id(obj)] = (obj, contains_subcircuit(obj.body, memo))
+        return memo[id(obj)][1]
     if isinstance(obj, BlockStatement):
-        return obj.subcircuit or any(contains_subcircuit(s) for s in obj.statements)
+        return obj.subcircuit or any(
+            contains_subcircuit(s, memo) for s in obj.statements
+        )
     if isinstance(obj, (LoopStatement, CaseStatement)):
-        return contains_subcircuit(obj.statements)
+        return contains_subcircuit(obj.statements, memo)
     if isinstance(obj, BranchStatement):
-        return any(contains_subcircuit(c) for c in obj.cases)
+        return any(contains_subcircuit(c, memo) for c in obj.cases)
     return False
 
 
